@@ -14,24 +14,25 @@ PROP = dict(
     class_names={0: "rcb2", 1: "rcb3", 2: "rib2", 3: "rib3", 4: "hilbert2", 5: "hilbert3", 6: "zcurve2", 7: "zcurve3",
                  8: "multijagged2", 9: "greedy", 10: "kk", 11: "ckk", 12: "grid2", 13: "grid3", 14: "random"},
     trusted_base=[
-        "axioms: C01_rcb_partial, C01_rib_partial (through C03's Flocq-based discharge of the cut search's float hypotheses) and "
-        "C01_grid_rcb_2d_partial, C01_grid_rcb_3d_partial (through C10's Flocq-based threshold theorems) use the axioms of "
-        "Coq's classical real numbers (ClassicalDedekindReals.sig_forall_dec, ClassicalDedekindReals.sig_not_dec, "
+        "axioms: C01_rcb_partial, C01_rib_partial (through C03's Flocq-based discharge of the cut search's float hypotheses and of "
+        "the box premise) and C01_grid_rcb_2d_partial, C01_grid_rcb_3d_partial, C01_grid_rcb_2d_i64, C01_grid_rcb_3d_i64 (through "
+        "C10's Flocq-based threshold theorems) use the axioms of Coq's classical real numbers "
+        "(ClassicalDedekindReals.sig_forall_dec, ClassicalDedekindReals.sig_not_dec, "
         "FunctionalExtensionality.functional_extensionality_dep, Classical_Prop.classic); every other theorem of "
         "Properties/C01.v -- C01_rcb_range and C01_grid_rcb_partial (threshold facts as a premise) included -- is closed under "
         "the global context",
-        "Flocq 4.1 (through Proofs/F32Flocq.v and Proofs/GridRcbFloat.v, for the four theorems above only)",
+        "Flocq 4.1 (through Proofs/F32Flocq.v, Proofs/RcbBox.v and Proofs/GridRcbFloat.v, for the six theorems above only)",
         "the per-algorithm theorems are derived from the property theorems of Properties/C03, C09, C10, C11, C12, C13 (by "
         "name; Proofs/C01Collect.v) about the models instantiated there with the generated constants, and are only as tied to "
         "the code as those checks' correspondence runs make them; this check itself runs the implementation only (panic / "
         "hang / range)",
-        "NOT proved (theorems named _partial, premises stated in Properties/C01.v): Rcb/Rib totality has the decidable premise "
-        "box_ok32 (root box finite and enclosing the binary32 coordinates: not derived from 'finite f64 coordinates', and "
-        "false for coordinates beyond the binary32 range) and i64 weights; HilbertCurve's quantile search is shown to "
-        "terminate only for part_count <= 2; MultiJagged's panic-freedom only for exact arithmetic (binary64, with either "
-        "Ulps epsilon: range if it returns); Grid::rcb for i64 totals below 2^46 and exact dyadic f64 weights with integer "
-        "total below 2^53, or given the threshold facts; Rib's rotation, ZCurve's quadrant function, Hilbert's curve index "
-        "and MultiJagged's powf root are data / oracles",
+        "NOT proved (theorems named _partial, premises stated in Properties/C01.v): Rcb/Rib for finite f64 coordinates beyond "
+        "the binary32 range (the theorems require a finite binary32 image) and for f64 weights; HilbertCurve's quantile search is "
+        "shown to terminate only for part_count <= 2; MultiJagged in binary64 returns Ok given the named premise mono_cuts "
+        "(split positions of every call non-decreasing), not proved for binary64 -- for every arithmetic only panic sites 4 "
+        "and 5 are reachable, and exact arithmetic is total; Grid::rcb with f64 weights only for exact dyadic weights with "
+        "integer total below 2^53 (i64 weights: the whole contract, C01_grid_rcb_2d_i64 / _3d_i64); Rib's rotation, ZCurve's "
+        "quadrant function, Hilbert's curve index and MultiJagged's powf root are data / oracles",
         "the harness decides what is inside the usage contract (it generates only in-contract inputs) and the requested part count",
         "hang = no answer within the 90 s watchdog",
     ],
@@ -46,12 +47,13 @@ MANIFEST = dict(
          "shape `contract -> Ok ids /\\ length ids = n /\\ every id < parts` (Ok excludes panic and fuel exhaustion), collected "
          "in Properties/C01.v from the property theorems of the per-algorithm developments (by name; glue in Proofs/C01Collect.v). Full: ZCurve 2D/3D "
          "(every quadrant function and sort oracle), Greedy, KarmarkarKarp (every tie order), CompleteKarmarkarKarp (Ok or "
-         "NotFound), Random, the exact range checker. Partial, named _partial: Rcb and Rib (range whenever Ok is "
-         "unconditional; Ok for every schedule under the decidable premise box_ok32 -- the float hypotheses of the cut search "
-         "are discharged with Flocq in C03), HilbertCurve 2D/3D (no "
-         "panic and range for every part count, termination only for part_count <= 2), MultiJagged (range for every "
-         "arithmetic if it returns; Ok at exact arithmetic), Grid::rcb 2D/3D (every pool size; i64 totals below 2^46 or "
-         "exact dyadic f64 weights, classical-reals axioms, or the threshold facts as a premise). Plus a run of all 15 entry points on adversarial "
+         "NotFound), Random, the exact range checker, Grid::rcb 2D/3D with i64 weights (every pool "
+         "size, every total below 2^63; classical-reals axioms). Partial, named _partial: Rcb and Rib (Ok for every schedule "
+         "on coordinates with a finite binary32 image -- float hypotheses and box premise discharged with Flocq in C03; finite "
+         "f64 coordinates beyond the binary32 range not covered), HilbertCurve 2D/3D (no panic and range for every part count, "
+         "termination only for part_count <= 2), MultiJagged (range for every arithmetic if it returns; only panic sites 4 and "
+         "5 reachable; binary64 Ok given monotone cuts; Ok at exact arithmetic), Grid::rcb with exact dyadic f64 weights or "
+         "the threshold facts as a premise. Plus a run of all 15 entry points on adversarial "
          "in-contract inputs under six pool sizes with overflow checks and debug assertions on, every output judged by the "
          "certified range checker; panics and hangs are violations.",
     design_ref="DESIGN.md §7 C01",
